@@ -125,6 +125,8 @@ func (g *graphMemoizer) AddTriples(ctx context.Context, ts []*triple.Triple) err
 	g.memT = make(map[string][]*triple.Triple)
 	g.memE = make(map[string]bool)
 	g.mu.Unlock()
+	verifYield(ctx, "write:after-clear")
+	defer verifYield(ctx, "write:after-forward")
 
 	return g.g.AddTriples(ctx, ts)
 }
@@ -140,6 +142,8 @@ func (g *graphMemoizer) RemoveTriples(ctx context.Context, ts []*triple.Triple) 
 	g.memT = make(map[string][]*triple.Triple)
 	g.memE = make(map[string]bool)
 	g.mu.Unlock()
+	verifYield(ctx, "write:after-clear")
+	defer verifYield(ctx, "write:after-forward")
 
 	return g.g.RemoveTriples(ctx, ts)
 }
@@ -176,6 +180,7 @@ func (g *graphMemoizer) Objects(ctx context.Context, s *node.Node, p *predicate.
 	v := g.memO[k]
 	g.mu.RUnlock()
 	if v != nil {
+		verifYield(ctx, "read:hit")
 		// Return the memoized results.
 		defer close(objs)
 		for _, o := range v {
@@ -189,6 +194,7 @@ func (g *graphMemoizer) Objects(ctx context.Context, s *node.Node, p *predicate.
 		return nil
 	}
 
+	verifYield(ctx, "read:miss")
 	// Query and memoize the results.
 	c := make(chan *triple.Object)
 	defer close(objs)
@@ -220,9 +226,11 @@ func (g *graphMemoizer) Objects(ctx context.Context, s *node.Node, p *predicate.
 		}
 	}
 	wg.Wait()
+	verifYield(ctx, "read:after-forward")
 	g.mu.Lock()
 	g.memO[k] = mobjs
 	g.mu.Unlock()
+	verifYield(ctx, "read:after-store")
 	return err
 }
 
@@ -251,6 +259,7 @@ func (g *graphMemoizer) Subjects(ctx context.Context, p *predicate.Predicate, o 
 	v := g.memN[k]
 	g.mu.RUnlock()
 	if v != nil {
+		verifYield(ctx, "read:hit")
 		// Return the memoized results.
 		defer close(subs)
 		for _, s := range v {
@@ -264,6 +273,7 @@ func (g *graphMemoizer) Subjects(ctx context.Context, p *predicate.Predicate, o 
 		return nil
 	}
 
+	verifYield(ctx, "read:miss")
 	// Query and memoize the results.
 	c := make(chan *node.Node)
 	defer close(subs)
@@ -295,9 +305,11 @@ func (g *graphMemoizer) Subjects(ctx context.Context, p *predicate.Predicate, o 
 		}
 	}
 	wg.Wait()
+	verifYield(ctx, "read:after-forward")
 	g.mu.Lock()
 	g.memN[k] = msubs
 	g.mu.Unlock()
+	verifYield(ctx, "read:after-store")
 	return err
 }
 
@@ -316,6 +328,7 @@ func (g *graphMemoizer) PredicatesForSubject(ctx context.Context, s *node.Node, 
 	v := g.memP[k]
 	g.mu.RUnlock()
 	if v != nil {
+		verifYield(ctx, "read:hit")
 		// Return the memoized results.
 		defer close(prds)
 		for _, p := range v {
@@ -329,6 +342,7 @@ func (g *graphMemoizer) PredicatesForSubject(ctx context.Context, s *node.Node, 
 		return nil
 	}
 
+	verifYield(ctx, "read:miss")
 	// Query and memoize the results.
 	c := make(chan *predicate.Predicate)
 	defer close(prds)
@@ -360,9 +374,11 @@ func (g *graphMemoizer) PredicatesForSubject(ctx context.Context, s *node.Node, 
 		}
 	}
 	wg.Wait()
+	verifYield(ctx, "read:after-forward")
 	g.mu.Lock()
 	g.memP[k] = mpreds
 	g.mu.Unlock()
+	verifYield(ctx, "read:after-store")
 	return err
 }
 
@@ -381,6 +397,7 @@ func (g *graphMemoizer) PredicatesForObject(ctx context.Context, o *triple.Objec
 	v := g.memP[k]
 	g.mu.RUnlock()
 	if v != nil {
+		verifYield(ctx, "read:hit")
 		// Return the memoized results.
 		defer close(prds)
 		for _, p := range v {
@@ -394,6 +411,7 @@ func (g *graphMemoizer) PredicatesForObject(ctx context.Context, o *triple.Objec
 		return nil
 	}
 
+	verifYield(ctx, "read:miss")
 	// Query and memoize the results.
 	c := make(chan *predicate.Predicate)
 	defer close(prds)
@@ -425,9 +443,11 @@ func (g *graphMemoizer) PredicatesForObject(ctx context.Context, o *triple.Objec
 		}
 	}
 	wg.Wait()
+	verifYield(ctx, "read:after-forward")
 	g.mu.Lock()
 	g.memP[k] = mpreds
 	g.mu.Unlock()
+	verifYield(ctx, "read:after-store")
 	return err
 }
 
@@ -446,6 +466,7 @@ func (g *graphMemoizer) PredicatesForSubjectAndObject(ctx context.Context, s *no
 	v := g.memP[k]
 	g.mu.RUnlock()
 	if v != nil {
+		verifYield(ctx, "read:hit")
 		// Return the memoized results.
 		defer close(prds)
 		for _, p := range v {
@@ -459,6 +480,7 @@ func (g *graphMemoizer) PredicatesForSubjectAndObject(ctx context.Context, s *no
 		return nil
 	}
 
+	verifYield(ctx, "read:miss")
 	// Query and memoize the results.
 	c := make(chan *predicate.Predicate)
 	defer close(prds)
@@ -490,9 +512,11 @@ func (g *graphMemoizer) PredicatesForSubjectAndObject(ctx context.Context, s *no
 		}
 	}
 	wg.Wait()
+	verifYield(ctx, "read:after-forward")
 	g.mu.Lock()
 	g.memP[k] = mpreds
 	g.mu.Unlock()
+	verifYield(ctx, "read:after-store")
 	return err
 }
 
@@ -511,6 +535,7 @@ func (g *graphMemoizer) TriplesForSubject(ctx context.Context, s *node.Node, lo 
 	v := g.memT[k]
 	g.mu.RUnlock()
 	if v != nil {
+		verifYield(ctx, "read:hit")
 		// Return the memoized results.
 		defer close(trpls)
 		for _, t := range v {
@@ -524,6 +549,7 @@ func (g *graphMemoizer) TriplesForSubject(ctx context.Context, s *node.Node, lo 
 		return nil
 	}
 
+	verifYield(ctx, "read:miss")
 	// Query and memoize the results.
 	c := make(chan *triple.Triple)
 	defer close(trpls)
@@ -555,9 +581,11 @@ func (g *graphMemoizer) TriplesForSubject(ctx context.Context, s *node.Node, lo 
 		}
 	}
 	wg.Wait()
+	verifYield(ctx, "read:after-forward")
 	g.mu.Lock()
 	g.memT[k] = mts
 	g.mu.Unlock()
+	verifYield(ctx, "read:after-store")
 	return err
 }
 
@@ -576,6 +604,7 @@ func (g *graphMemoizer) TriplesForPredicate(ctx context.Context, p *predicate.Pr
 	v := g.memT[k]
 	g.mu.RUnlock()
 	if v != nil {
+		verifYield(ctx, "read:hit")
 		// Return the memoized results.
 		defer close(trpls)
 		for _, t := range v {
@@ -589,6 +618,7 @@ func (g *graphMemoizer) TriplesForPredicate(ctx context.Context, p *predicate.Pr
 		return nil
 	}
 
+	verifYield(ctx, "read:miss")
 	// Query and memoize the results.
 	c := make(chan *triple.Triple)
 	defer close(trpls)
@@ -620,9 +650,11 @@ func (g *graphMemoizer) TriplesForPredicate(ctx context.Context, p *predicate.Pr
 		}
 	}
 	wg.Wait()
+	verifYield(ctx, "read:after-forward")
 	g.mu.Lock()
 	g.memT[k] = mts
 	g.mu.Unlock()
+	verifYield(ctx, "read:after-store")
 	return err
 }
 
@@ -641,6 +673,7 @@ func (g *graphMemoizer) TriplesForObject(ctx context.Context, o *triple.Object, 
 	v := g.memT[k]
 	g.mu.RUnlock()
 	if v != nil {
+		verifYield(ctx, "read:hit")
 		// Return the memoized results.
 		defer close(trpls)
 		for _, t := range v {
@@ -654,6 +687,7 @@ func (g *graphMemoizer) TriplesForObject(ctx context.Context, o *triple.Object, 
 		return nil
 	}
 
+	verifYield(ctx, "read:miss")
 	// Query and memoize the results.
 	c := make(chan *triple.Triple)
 	defer close(trpls)
@@ -685,9 +719,11 @@ func (g *graphMemoizer) TriplesForObject(ctx context.Context, o *triple.Object, 
 		}
 	}
 	wg.Wait()
+	verifYield(ctx, "read:after-forward")
 	g.mu.Lock()
 	g.memT[k] = mts
 	g.mu.Unlock()
+	verifYield(ctx, "read:after-store")
 	return err
 }
 
@@ -706,6 +742,7 @@ func (g *graphMemoizer) TriplesForSubjectAndPredicate(ctx context.Context, s *no
 	v := g.memT[k]
 	g.mu.RUnlock()
 	if v != nil {
+		verifYield(ctx, "read:hit")
 		// Return the memoized results.
 		defer close(trpls)
 		for _, t := range v {
@@ -719,6 +756,7 @@ func (g *graphMemoizer) TriplesForSubjectAndPredicate(ctx context.Context, s *no
 		return nil
 	}
 
+	verifYield(ctx, "read:miss")
 	// Query and memoize the results.
 	c := make(chan *triple.Triple)
 	defer close(trpls)
@@ -750,9 +788,11 @@ func (g *graphMemoizer) TriplesForSubjectAndPredicate(ctx context.Context, s *no
 		}
 	}
 	wg.Wait()
+	verifYield(ctx, "read:after-forward")
 	g.mu.Lock()
 	g.memT[k] = mts
 	g.mu.Unlock()
+	verifYield(ctx, "read:after-store")
 	return err
 }
 
@@ -771,6 +811,7 @@ func (g *graphMemoizer) TriplesForPredicateAndObject(ctx context.Context, p *pre
 	v := g.memT[k]
 	g.mu.RUnlock()
 	if v != nil {
+		verifYield(ctx, "read:hit")
 		// Return the memoized results.
 		defer close(trpls)
 		for _, t := range v {
@@ -784,6 +825,7 @@ func (g *graphMemoizer) TriplesForPredicateAndObject(ctx context.Context, p *pre
 		return nil
 	}
 
+	verifYield(ctx, "read:miss")
 	// Query and memoize the results.
 	c := make(chan *triple.Triple)
 	defer close(trpls)
@@ -815,9 +857,11 @@ func (g *graphMemoizer) TriplesForPredicateAndObject(ctx context.Context, p *pre
 		}
 	}
 	wg.Wait()
+	verifYield(ctx, "read:after-forward")
 	g.mu.Lock()
 	g.memT[k] = mts
 	g.mu.Unlock()
+	verifYield(ctx, "read:after-store")
 	return err
 }
 
@@ -828,17 +872,21 @@ func (g *graphMemoizer) Exist(ctx context.Context, t *triple.Triple) (bool, erro
 	v, ok := g.memE[k]
 	g.mu.RUnlock()
 	if ok {
+		verifYield(ctx, "read:hit")
 		// Return the memoized results.
 		return v, nil
 	}
+	verifYield(ctx, "read:miss")
 
 	// Query and memoize the results.
 	b, err := g.g.Exist(ctx, t)
+	verifYield(ctx, "read:after-forward")
 	if err == nil {
 		g.mu.Lock()
 		g.memE[k] = b
 		g.mu.Unlock()
 	}
+	verifYield(ctx, "read:after-store")
 	return b, err
 }
 
@@ -851,6 +899,7 @@ func (g *graphMemoizer) Triples(ctx context.Context, lo *storage.LookupOptions, 
 	v := g.memT[k]
 	g.mu.RUnlock()
 	if v != nil {
+		verifYield(ctx, "read:hit")
 		// Return the memoized results.
 		defer close(trpls)
 		for _, t := range v {
@@ -864,6 +913,7 @@ func (g *graphMemoizer) Triples(ctx context.Context, lo *storage.LookupOptions, 
 		return nil
 	}
 
+	verifYield(ctx, "read:miss")
 	// Query and memoize the results.
 	c := make(chan *triple.Triple)
 	defer close(trpls)
@@ -895,8 +945,10 @@ func (g *graphMemoizer) Triples(ctx context.Context, lo *storage.LookupOptions, 
 		}
 	}
 	wg.Wait()
+	verifYield(ctx, "read:after-forward")
 	g.mu.Lock()
 	g.memT[k] = mts
 	g.mu.Unlock()
+	verifYield(ctx, "read:after-store")
 	return err
 }
